@@ -241,18 +241,13 @@ def rule_rearm(ctx, u):
                       path=common.fmt_blocks(bi, bad), sample={"arm_sites": [s.where for s in arms]})
     elif u.family == "zip":
         # the all_ready test: Iterator::all over the state table
-        alls = [s for s in bi.sites if s.callee.name == "all"]
+        tests = [t for t in common.all_ready_tests(u.model, bi) if t[3] and t[4]]
         armall = scan.arm_all_sites(bi)
-        if not alls:
+        if not tests:
             ctx.fail("C01.REARM", u.where, "no all-ready test found in zip poll body", site=u.body.span)
             return
         n_ok = 0
-        for s in alls:
-            te = bi.outcome_edges(s, True)
-            for e in bi.phi_tests_fed_by(s):
-                ed = bi.edge(e, True)
-                if ed:
-                    te.append(ed)
+        for s, te, fe_, full_, pred_ in tests:
             if not te:
                 continue
             ok, bad = bi.must_reach([b for _, b in te], [a.block for a in armall], bi.return_blocks)
